@@ -75,6 +75,7 @@ type Exec struct {
 	specErrs     int
 	retCount     map[string]int
 	probes       map[string]map[string]Val
+	countersRegistered bool
 }
 
 func newExec(p *Program, sp *Specs) *Exec {
@@ -350,6 +351,9 @@ func (ex *Exec) remember(st *State, arr, ref string, v Val) {
 
 func (ex *Exec) zeroObject(st *State, p Val) {
 	el := derefType(p.Typ)
+	if el != nil && typeKey(el) == "sync.WaitGroup" {
+		st.write("wg."+lockKeyOf(p), "Int", p.T, "0")
+	}
 	if s := structOf(el); s != nil && p.Arr == "" {
 		for i := 0; i < s.NumFields(); i++ {
 			if skipField(s.Field(i)) {
@@ -740,9 +744,16 @@ func (ex *Exec) block(st *State, fr *Frame, b *ssa.BasicBlock, pred *ssa.BasicBl
 		}
 		ms := ex.loopModSet(b)
 		for _, a := range ms.arrays() {
-			st.havoc(a)
+			switch a {
+			case "closed":
+				ex.havocClosed(st)
+			case "ctxdone":
+				ex.observeCtx(st)
+			default:
+				st.havoc(a)
+			}
 		}
-		for _, c := range ms.counters() {
+		for _, c := range ex.expandCounters(st, ms) {
 			if _, ok := st.ex.cntInit[c]; ok || st.cnt[c] != "" {
 				st.cnt[c] = st.fresh("cnt."+c, "Int")
 			} else {
@@ -1110,4 +1121,35 @@ func (ex *Exec) globalFacts(st *State, addr, val string, t types.Type) {
 		st.assume("(and (distinct " + val + " 0) (isSentinel " + val + ") (not (isStatus " + val + ")) (= (sentinelId " + val + ") " + fmt.Sprint(id) + "))")
 		ex.use("assumed-global:" + addr + " is an immutable non-nil sentinel error")
 	}
+}
+
+// expandCounters resolves wildcard entries ("send:*") against the counters known so far.
+func (ex *Exec) expandCounters(st *State, ms *modSet) []string {
+	seen := map[string]bool{}
+	var out []string
+	add := func(k string) {
+		if !seen[k] {
+			seen[k] = true
+			out = append(out, k)
+		}
+	}
+	for _, c := range ms.counters() {
+		if strings.HasSuffix(c, "*") {
+			pre := strings.TrimSuffix(c, "*")
+			for k := range ex.cntInit {
+				if strings.HasPrefix(k, pre) {
+					add(k)
+				}
+			}
+			for k := range st.cnt {
+				if strings.HasPrefix(k, pre) {
+					add(k)
+				}
+			}
+			continue
+		}
+		add(c)
+	}
+	sort.Strings(out)
+	return out
 }
